@@ -20,6 +20,7 @@ THRIFT_RT = ["common", "protos", "ref_thrift", "l0", "insts_l0", "l1", "insts_l1
 PB_RT = ["common", "ref_thrift", "ref_pb", "pb", "insts_pb"]
 
 PROPS = {
+    "PROBE": dict(modules=["common","protos","ref_thrift","l0","l1","probe"]),
     "C09": dict(
         modules=["common", "protos", "ref_thrift", "l0", "l1", "total", "insts_c09"],
         outside="inputs longer than the per-reader bound (<= 17 bytes); whole emitted decoders on arbitrary bytes (only skeleton+corruption, see harness names); stack depth of recursive schemas; the async readers (C12)",
